@@ -205,6 +205,7 @@ static GraphSpec reorder(Rng &r, const GraphSpec &s) {
 
 static double run_one(int variant, const GraphSpec &s, bool scramble, uint64_t lseed, size_t &ncycles, uint64_t &layout_sig) {
     typedef BG<double>::Graph G; typedef BG<double>::Edge E;
+    require_in_domain(s, "c08");
     G g(s.n);
     auto w = boost::get(boost::edge_weight, g);
     vscr::begin(scramble, lseed, 2 * s.edges.size() + 3 * (size_t) s.n + 64);
